@@ -4,17 +4,24 @@ CHECK = {
         {"pkg": "cert", "files": ["cert/certgen_test.go", "cert/c04_test.go"], "run": "^TestC04",
          "quick": {"scale": 1, "shards": 1, "timeout": 600},
          "thorough": {"scale": 5, "shards": 8, "timeout": 1800}},
+        {"pkg": "cmd/nebula-cert", "files": ["cmd/nebula-cert/c04cli_test.go"], "run": "^TestC04",
+         "quick": {"scale": 1, "shards": 1, "timeout": 600},
+         "thorough": {"scale": 8, "shards": 4, "timeout": 1800}},
     ],
     "rule": "(signer CA with its own key, request) pairs from the C01 constraint-lattice generator: requests inside every "
             "constraint, or violating window / groups / networks / unsafe networks / curve / CA flag / one structural rule "
             "(no network, zero address, IPv6 in v1, 4in6, duplicate prefix, unsafe family without address, empty key, "
             "invalid prefix); self-signing with and without the CA flag; issued through Sign and through SignWith with a "
             "lambda returning high- or low-S signatures. Non-trivial: exactly one violated rule, or an issued certificate "
-            "under a constrained CA. Distinct by the (signer, request, mode) description.",
+            "under a constrained CA. Distinct by the (signer, request, mode) description. CLI part: generated flag sets drive "
+            "ca(...) and then signCert(...) in a scratch directory inside a synctest bubble (virtual clock): CA version, curve, "
+            "lifetime 1 s .. 100 h, optional groups / networks / unsafe networks, plain or encrypted key; sign at +0, +1 s, "
+            "lifetime-1 s, lifetime, lifetime+1 s with default duration, duration ending exactly with / one second after / before "
+            "the CA, version 0/1/2, networks inside / outside the CA prefixes, zero address, 4in6; same non-triviality rule.",
     "assumptions": ["the signing key belongs to the signer (every caller guarantees it: nebula-cert sign runs VerifyPrivateKey)",
                     "the statement bounds success only ('only when'): refusals of admissible requests are recorded in the "
                     "label histogram (refused-although-within-constraints) but are not violations"],
-    "engine": "E-pure",
+    "engine": "E-pure (library), E-pure in a synctest bubble (CLI)",
     "technique": "rapid generated signer/request pairs against the reference constraint predicate; issued certificates "
                  "verified against a pool holding the signer; low-S checked with math/big",
 }
